@@ -3,6 +3,7 @@
 D=$1; shift
 cd /repo && git apply "$D/patch.diff" || { echo "PATCH DOES NOT APPLY"; exit 9; }
 cd /verif
+export VERIF_EVIDENCE_DIR=/tmp/verif_scratch_evidence; mkdir -p $VERIF_EVIDENCE_DIR
 for P in "$@"; do
   ./check $P quick > /tmp/try_seed_$P.log 2>&1; rc=$?
   echo "== $P exit=$rc"; grep -E "^(FAILED|UNDEC|CHECKER|VIOL)" /tmp/try_seed_$P.log | cut -c1-${CUT:-330} | head -${HEAD:-4}; tail -1 /tmp/try_seed_$P.log
